@@ -39,6 +39,7 @@ func (w *World) effectiveSpec(key string) *FuncSpec {
 func (w *World) verifyFunc(key string) (g *Gen) {
 	fn := w.prog.funcs[key]
 	spec := w.effectiveSpec(key)
+	w.resetAnchors(key)
 	g = newGen(w, fn, spec)
 	g.topKey = key
 	if fn == nil {
